@@ -221,6 +221,9 @@ func newSynthSporks(rng *rand.Rand, h uint64) *synthSporks {
 		if rng.Intn(2) == 0 {
 			sp.Activated = true
 			sp.EnforcementHeight = uint64(rng.Intn(40))
+			if rng.Intn(2) == 0 && h < 1<<62 { // at the boundary of the store's height
+				sp.EnforcementHeight = h + uint64(rng.Intn(3)) - 1
+			}
 		}
 		sp.Save(s.ctx.Storage())
 		s.list = append(s.list, sp)
